@@ -117,14 +117,18 @@ static void run_cmd(const sim::Cmd &c, sim::Out &out)
     b.q_undecided_relations = b.q_disj_polarity = false;
   if (c.num("q_undecided_relations", 1) == 0)
     b.q_undecided_relations = false;
-  if (c.num("q_disj_polarity", 1) == 0)
+  // KF-P2 is repaired: seed-generated runs no longer keep away from negated / reified disjunctions. Explicit histories (replay files,
+  // canaries, regression replays) keep the meaning their ops had when they were recorded unless they say otherwise; the setting is
+  // part of the run's parameters, so every new replay file records it
+  const long q_disj = c.num("q_disj_polarity", c.verb == "exec" ? 1 : 0);
+  if (q_disj == 0)
     b.q_disj_polarity = false;
   b.q_rr_numeric = c.num("q_rr_numeric", prop == "C02" ? 1 : 0) != 0;
   b.q_empty_object_domain = c.num("q_empty_object_domain", 1) != 0;
   for (auto &op : ops)
     b.apply(op);
   b.finalize();
-  out.line("P layout=" + std::to_string(layout) + " seed=" + std::to_string(seed));
+  out.line("P layout=" + std::to_string(layout) + " seed=" + std::to_string(seed) + " q_disj_polarity=" + std::to_string(q_disj));
   if (c.verb == "gen" || c.num("emit_ops", 0))
     for (auto &op : ops)
       out.line("O " + op.text());
@@ -314,7 +318,12 @@ static void run_cmd(const sim::Cmd &c, sim::Out &out)
     if (!viols.empty())
       break;
     if (u + 1 == b.units.size())
-      verdict = 1;
+    { // a positive verdict only counts when the solution checks (whichever property this run is judged for)
+      if (ck.out.empty())
+        verdict = 1;
+      else
+        cnt.inc("p7c.primary_solution_does_not_check");
+    }
   }
   // P7(b), C02 (and C03): a problem built around a known feasible plan is never rejected. The `ublock` part of the problem is
   // solvable by construction (its goal can only be unified with its fact, whose argument range meets the goal's); a fresh solver
